@@ -594,11 +594,55 @@ static rc::Gen<Case> gen_osslfault(int) {
   });
 }
 
+// A second private value that a cheap fingerprint cannot tell from the first: the results must depend on the whole value, not on a digest of it.
+// Differences that are multiples of a CRC generator polynomial (CRC-32C and CRC-32, bits taken LSB first as those CRCs do, and MSB first), that
+// keep byte sums and 32-bit xor-folds (two bytes swapped; one bit flipped in two bytes four apart), one bit, or +1.
+static void harness_error(const char *m) {
+  fprintf(stderr, "HARNESS-ERROR: C10: %s\n", m);
+  exit(3);
+}
+static uint32_t crc_reflected(uint32_t poly_reflected, const std::string &m) {
+  uint32_t c = 0xffffffffu;
+  for (unsigned char ch : m) {
+    c ^= ch;
+    for (int i = 0; i < 8; i++) c = (c >> 1) ^ ((c & 1) ? poly_reflected : 0);
+  }
+  return ~c;
+}
+static std::string related_key(const std::string &xa, int kind, int where) {
+  std::string xb = xa;
+  where = ((where % 256) + 256) % 256;
+  if (kind <= 3) {
+    uint64_t g = kind < 2 ? 0x11EDC6F41ULL : 0x104C11DB7ULL;  // x^32 + ...: CRC-32C (Castagnoli), CRC-32 (IEEE)
+    size_t byte0 = (size_t)where % 27, shift = (size_t)(where / 32) % 8;
+    for (int j = 0; j < 33; j++)
+      if ((g >> (32 - j)) & 1) {
+        size_t bitpos = shift + (size_t)j;
+        xb[byte0 + bitpos / 8] ^= (char)((kind & 1) ? (0x80 >> (bitpos % 8)) : (1 << (bitpos % 8)));
+      }
+    if (kind == 0 && crc_reflected(0x82F63B78u, xa) != crc_reflected(0x82F63B78u, xb)) harness_error("related_key: CRC-32C of the pair differs");
+    if (kind == 2 && crc_reflected(0xEDB88320u, xa) != crc_reflected(0xEDB88320u, xb)) harness_error("related_key: CRC-32 of the pair differs");
+  } else if (kind == 4) {
+    size_t i = (size_t)where % 32, j = (i + 1 + (size_t)(where / 32)) % 32;
+    std::swap(xb[i], xb[j]);
+    if (xb == xa) xb[i] ^= 1, xb[(i + 4) % 32] ^= 1;
+  } else if (kind == 5) {
+    size_t i = (size_t)where % 28;
+    xb[i] ^= (char)(1 << (where / 32)), xb[i + 4] ^= (char)(1 << (where / 32));
+  } else if (kind == 6)
+    xb[(size_t)where % 32] ^= (char)(1 << (where / 32));
+  else {
+    for (int i = 31; i >= 0; i--)
+      if (++xb[(size_t)i] != 0) break;
+  }
+  return xb;
+}
 // sub "agree": ops x x r r r r
 static rc::Gen<Case> gen_agree(int) {
   return rc::gen::exec([]() {
     Case c;
     std::string xa = *gen_s32(), xb = *gen_s32();
+    if (*range<int>(0, 2) == 0) xb = related_key(xa, *range<int>(0, 7), *range<int>(0, 255));
     c.push_back(Op("x", {}, xa));
     c.push_back(Op("x", {}, xb));
     c.push_back(Op("r", {}, *gen_blind(xa)));
